@@ -175,7 +175,7 @@ def run(ctx):
         ctx.exhaustive = True
     else:
         nontrivial = [c for c in c2 if c["clash"] or c["same"] or c["across"]]
-        todo = c1 + ctx.rng.sample(nontrivial, 170) + ctx.rng.sample(c2, 60)
+        todo = c1 + ctx.rng.sample(nontrivial, 150) + ctx.rng.sample(c2, 50)
         ctx.exhaustive = False
     ctx.extra["spaces"] = {k: len(v) for k, v in spaces.items()}
     prepare(ctx, todo)
